@@ -35,6 +35,8 @@ struct Inputs {
     prog: proggen::Prog,
     /// which of the 16 GPRs are written explicitly (RSP, RBX, R13 always)
     written: [bool; 16],
+    /// which XMM registers are written explicitly
+    written_xmm: [bool; 16],
     with_hooks: bool,
     with_syscalls: bool,
 }
@@ -50,7 +52,11 @@ fn gen_inputs(rng: &mut Rng) -> Inputs {
     written[3] = true;
     written[4] = true;
     written[13] = true;
-    Inputs { prog, written, with_hooks: rng.below(2) == 0, with_syscalls }
+    let mut written_xmm = [true; 16];
+    for _ in 0..*rng.pick(&[0u64, 1, 2, 3, 6, 16]) {
+        written_xmm[rng.below(16) as usize] = false;
+    }
+    Inputs { prog, written, written_xmm, with_hooks: rng.below(2) == 0, with_syscalls }
 }
 
 fn build(inp: &Inputs) -> Option<Axecutor> {
@@ -61,6 +67,11 @@ fn build(inp: &Inputs) -> Option<Axecutor> {
     for (i, r) in proggen::GPR.iter().enumerate() {
         if inp.written[i] && i != 4 {
             catch(|| ax.reg_write_64(*r, p.init_gpr[i])).ok()?.ok()?;
+        }
+    }
+    for (i, x) in XMM.iter().enumerate() {
+        if inp.written_xmm[i] {
+            catch(|| ax.reg_write_128(*x, ((mix64(i as u64 + 500) as u128) << 64) | mix64(i as u64 + 900) as u128)).ok()?.ok()?;
         }
     }
     catch(|| ax.init_stack(0x2000)).ok()?.ok()?;
@@ -83,7 +94,7 @@ fn gpr_index(r: Register) -> Option<usize> {
 /// Returns (result text, defined GPR mask, defined XMM mask, steps).
 fn run(ax: &mut Axecutor, inp: &Inputs) -> (String, [bool; 16], [bool; 16], u64) {
     let mut def = inp.written;
-    let mut xdef = [false; 16];
+    let mut xdef = inp.written_xmm;
     let mut fac = InstructionInfoFactory::new();
     let mut steps = 0;
     let mut result = String::from("limit");
@@ -196,6 +207,62 @@ fn observable(ax: &mut Axecutor, result: &str, def: &[bool; 16], xdef: &[bool; 1
     v
 }
 
+impl C20 {
+    /// Loading the same ELF bytes must give the same machine: image, entry, and the name every symbol address resolves to
+    /// (several names on one address are legal; which one wins must be a function of the file, not of a HashMap's seed).
+    fn elf_case(&mut self, k: u64, pid: u64, col: &mut Collector) {
+        let mut prng = Rng::derive(col.seed ^ hash_str("C20-elf"), pid, 5);
+        let mut spec = super::elfgen::gen_spec(&mut prng, true);
+        // make sure there are aliases: several names on the same addresses
+        let mut syms = spec.symbols.take().unwrap_or_default();
+        let n_alias = prng.range(2, 6);
+        for i in 0..n_alias {
+            let seg = prng.pick(&spec.segs).clone();
+            let addr = if i == 0 { spec.entry } else { seg.vaddr + prng.below(seg.memsz.max(1)) };
+            for j in 0..prng.range(2, 4) {
+                syms.push(super::elfgen::Sym { name: Some(Ok(format!("alias_{}_{}_{:x}", i, j, prng.below(0xffff)))), value: addr, defined: true });
+            }
+        }
+        spec.symbols = Some(syms);
+        let bytes = super::elfgen::write_elf(&spec);
+        let load = |bytes: &[u8]| -> Option<Vec<(String, String)>> {
+            let mut ax = catch(|| Axecutor::from_binary(bytes)).ok()?.ok()?;
+            let mut v: Vec<(String, String)> = Vec::new();
+            v.push(("rip".into(), format!("{:#x}", ax.reg_read_64(SR::RIP).unwrap_or(0))));
+            let mut areas = ax.verif_areas();
+            areas.sort_by_key(|a| a.start);
+            for a in areas {
+                v.push((format!("area@{:#x}", a.start), format!("len={:#x} access={} hash={:#x}", a.length, a.access, hash_bytes(&a.data))));
+            }
+            let mut syms = ax.verif_symbols();
+            syms.sort();
+            for (a, n) in syms {
+                v.push((format!("symbol@{:#x}", a), n));
+            }
+            v.push(("trace_text".into(), match call(|| ax.trace()) { Call::Ok(s) => s, o => o.describe() }));
+            v.push(("call_stack_text".into(), match call(|| ax.call_stack()) { Call::Ok(s) => s, o => o.describe() }));
+            Some(v)
+        };
+        col.publish("determinism-elf", "from_binary twice");
+        let (Some(oa), Some(ob)) = (load(&bytes), load(&bytes)) else {
+            col.count("elf_not_loaded", 1);
+            return;
+        };
+        col.eval(2);
+        col.distinct_key(&format!("elf|{}|{}", spec.segs.len(), n_alias));
+        if oa != ob {
+            let diff = oa.iter().zip(ob.iter()).find(|(x, y)| x != y).map(|(x, y)| format!("{}: {:?} vs {:?}", x.0, x.1.chars().take(120).collect::<String>(), y.1.chars().take(120).collect::<String>())).unwrap_or_else(|| "different number of observables".into());
+            col.violation_case("determinism:same-elf-loaded-twice", k, format!("the same ELF bytes loaded twice in one process give different machines: {}", diff), json!({"difference": diff}));
+            return;
+        }
+        let mut h = 0u64;
+        for (k2, v) in &oa {
+            h = mix64(h ^ hash_str(k2) ^ hash_str(v).rotate_left(17));
+        }
+        col.set_insert("digests", &format!("{}:{:016x}", pid, h));
+    }
+}
+
 impl Monitor for C20 {
     fn total_cases(&self) -> u64 {
         REPLICAS * self.tier.pick(15_000, 400_000)
@@ -203,6 +270,9 @@ impl Monitor for C20 {
 
     fn run_case(&mut self, k: u64, _rng: &mut Rng, col: &mut Collector) {
         let pid = k / REPLICAS;
+        if pid % 8 == 7 {
+            return self.elf_case(k, pid, col);
+        }
         // the program and its explicit inputs depend on pid only: the REPLICAS copies run in different worker processes
         let mut prng = Rng::derive(col.seed ^ hash_str("C20-program"), pid, 3);
         let inp = gen_inputs(&mut prng);
